@@ -65,7 +65,7 @@ def run(tier, seed):
     exes = core.build_many(SPEC)
     wd = core.workdir()
     js = []
-    for n, (variant, procs, rounds) in enumerate([("dbg", 10 if q else 40, 60 if q else 300), ("asan", 4 if q else 12, 30 if q else 150)]):
+    for n, (variant, procs, rounds) in enumerate([("dbg", 12 if q else 40, 500 if q else 3000), ("asan", 4 if q else 12, 150 if q else 1000)]):
         for p in range(procs):
             d = os.path.join(wd, "nj_%s_%d" % (variant, p))
             os.makedirs(d, exist_ok=True)
